@@ -24,7 +24,7 @@ Section Success.
     induction n as [|n IH]; intros d vs vs' t Hh Hp H1.
     - destruct Hh as [(l & Hl)|[]]. apply (leaf_succ d vs vs' l t Hl Hp H1).
     - pose proof (cores_perm vs vs' Hp) as Hcp.
-      destruct Hh as [(l & Hl)|[(ls & Hc & Hh)|[(SS & Hc & Hnd & Hh)|[(Hm & SS & Hc & Hnd & Hh)|[(Hm & kvss & Hc & Hhk & Hhv)|[(ls & Hc & Hh)|(HF & Hh)]]]]]].
+      destruct Hh as [(l & Hl)|[(ls & Hc & Hh)|[(RS & Hc & Hm & Hnd & Hh)|[(Hm & kvss & Hc & Hhk & Hhv)|[(TS & Hc & Hh)|(HF & Hh)]]]]].
       + apply (leaf_succ d vs vs' l t Hl Hp H1).
       + (* sequences *)
         rewrite Hc in Hcp. destruct (Permutation_map_inv _ _ (Permutation_sym Hcp)) as (ls' & Hc' & Hpl).
@@ -38,42 +38,29 @@ Section Success.
         destruct (IH (S d) _ (concat ls') it Hh (concat_perm _ _ Hpl) Hi) as (it' & Hi').
         rewrite (strip0 o d vs') by (rewrite Hc'; first [apply containers_map; reflexivity|destruct ls'; [congruence|discriminate]]).
         rewrite Hc', (seq_complete o d ls' it' Hd Hne' Hi'), omk_ok. eexists; reflexivity.
-      + (* records *)
-        rewrite Hc in Hcp. destruct (Permutation_map_inv _ _ (Permutation_sym Hcp)) as (SS' & Hc' & Hpl).
-        assert (Hnd' : Forall (fun fa => NoDup (map fst fa)) SS') by (rewrite Forall_forall in *; intros fa Hin; apply Hnd, (Permutation_in _ (Permutation_sym Hpl) Hin)).
-        destruct SS as [|fa0 r0].
+      + (* records, as structs or as maps with string keys *)
+        rewrite Hc in Hcp. destruct (Permutation_map_inv _ _ (Permutation_sym Hcp)) as (RS' & Hc' & Hpl).
+        pose proof (Permutation_map snd Hpl) as Hps. pose proof (existsb_perm fst RS RS' Hpl) as Hbp.
+        assert (Hnd' : Forall (fun fa => NoDup (map fst fa)) (map snd RS')) by (apply (Permutation_Forall Hps Hnd)).
+        assert (Hm' : existsb fst RS' = true -> o_map_as_struct o = true) by (rewrite <- Hbp; exact Hm).
+        destruct RS as [|x0 r0].
         { destruct (cores_nil_atoms o vs Hc) as (l & Hl). apply (leaf_succ d vs vs' l t Hl Hp H1). }
-        assert (Hne' : SS' <> []) by (intros ->; apply Permutation_sym, Permutation_nil in Hpl; discriminate).
-        rewrite (strip0 o d vs) in H1 by (rewrite Hc; first [apply containers_map; reflexivity|discriminate]). rewrite Hc in H1.
-        destruct (omk_ok_inv _ _ _ H1) as (u & E1 & ->).
-        pose proof (struct_depth_ok o d fa0 r0 false u E1) as Hd.
-        destruct (record_projection o d (fa0 :: r0) false u ltac:(discriminate) Hnd E1) as (fs1 & -> & P1).
-        assert (Hall : forall k, exists T, trace_seq' o (S d + count_dots k) (vals k SS') (Ok (TUnknown false)) = Ok T).
-        { intros k. specialize (P1 k). destruct (fget2 k fs1) as [[tk lk]|].
-          - destruct P1 as (_ & T0 & R0 & _). apply (IH _ (vals k (fa0 :: r0)) (vals k SS') T0 (Hh k) (vals_perm k _ _ Hpl) R0).
-          - pose proof (vals_perm k _ _ Hpl) as Hvp. rewrite P1 in Hvp. apply Permutation_nil in Hvp. rewrite Hvp. eexists; reflexivity. }
-        destruct (record_complete o d SS' false Hd Hnd' Hall) as (u2 & E2).
-        rewrite (strip0 o d vs') by (rewrite Hc'; first [apply containers_map; reflexivity|destruct SS'; [congruence|discriminate]]).
-        rewrite Hc', E2, omk_ok. eexists; reflexivity.
-      + (* records presented as maps *)
-        rewrite Hc in Hcp. destruct (Permutation_map_inv _ _ (Permutation_sym Hcp)) as (SS' & Hc' & Hpl).
-        assert (Hnd' : Forall (fun fa => NoDup (map fst fa)) SS') by (rewrite Forall_forall in *; intros fa Hin; apply Hnd, (Permutation_in _ (Permutation_sym Hpl) Hin)).
-        destruct SS as [|fa0 r0].
-        { destruct (cores_nil_atoms o vs Hc) as (l & Hl). apply (leaf_succ d vs vs' l t Hl Hp H1). }
-        assert (Hne' : SS' <> []) by (intros ->; apply Permutation_sym, Permutation_nil in Hpl; discriminate).
-        rewrite (strip0 o d vs) in H1 by (rewrite Hc; first [apply containers_map; reflexivity|discriminate]). rewrite Hc in H1.
-        rewrite (maps_collection o d (fa0 :: r0) Hm ltac:(discriminate)) in H1.
+        assert (Hne' : RS' <> []) by (intros ->; apply Permutation_sym, Permutation_nil in Hpl; discriminate).
+        assert (Hrc : forall a, is_container (rec a) = true) by (intros [[|] ?]; reflexivity).
+        rewrite (strip0 o d vs) in H1 by (rewrite Hc; first [apply containers_map; exact Hrc|discriminate]). rewrite Hc in H1.
+        rewrite (recs_collection o d (x0 :: r0) false Hm) in H1.
         destruct (omk_ok_inv _ _ _ H1) as (w & E1 & ->).
-        destruct (trace_seq' o d (map VStruct (fa0 :: r0)) (Ok (TUnknown false))) as [u| |p] eqn:F1; try discriminate E1.
-        pose proof (struct_depth_ok o d fa0 r0 false u F1) as Hd.
-        destruct (record_projection o d (fa0 :: r0) false u ltac:(discriminate) Hnd F1) as (fs1 & -> & P1).
+        set (SS := map snd (x0 :: r0)) in *. set (SS' := map snd RS') in *.
+        destruct (trace_seq' o d (map VStruct SS) (Ok (TUnknown false))) as [u| |p] eqn:F1; [|rewrite obm_err in E1; discriminate|rewrite obm_panic in E1; discriminate].
+        assert (Hd : Nat.leb max_depth d = false) by (unfold SS in F1; cbn [map] in F1; apply (struct_depth_ok o d _ _ false u F1)).
+        destruct (record_projection o d SS false u ltac:(unfold SS; discriminate) Hnd F1) as (fs1 & -> & P1).
         assert (Hall : forall k, exists T, trace_seq' o (S d + count_dots k) (vals k SS') (Ok (TUnknown false)) = Ok T).
         { intros k. specialize (P1 k). destruct (fget2 k fs1) as [[tk lk]|].
-          - destruct P1 as (_ & T0 & R0 & _). apply (IH _ (vals k (fa0 :: r0)) (vals k SS') T0 (Hh k) (vals_perm k _ _ Hpl) R0).
-          - pose proof (vals_perm k _ _ Hpl) as Hvp. rewrite P1 in Hvp. apply Permutation_nil in Hvp. rewrite Hvp. eexists; reflexivity. }
+          - destruct P1 as (_ & T0 & R0 & _). apply (IH _ (vals k SS) (vals k SS') T0 (Hh k) (vals_perm k _ _ Hps) R0).
+          - pose proof (vals_perm k _ _ Hps) as Hvp. fold SS SS' in Hvp. rewrite P1 in Hvp. apply Permutation_nil in Hvp. rewrite Hvp. eexists; reflexivity. }
         destruct (record_complete o d SS' false Hd Hnd' Hall) as (u2 & E2).
-        rewrite (strip0 o d vs') by (rewrite Hc'; first [apply containers_map; reflexivity|destruct SS'; [congruence|discriminate]]).
-        rewrite Hc', (maps_collection o d SS' Hm Hne'), E2. cbn [omode]. rewrite omk_ok. eexists; reflexivity.
+        rewrite (strip0 o d vs') by (rewrite Hc'; first [apply containers_map; exact Hrc|destruct RS'; [congruence|discriminate]]).
+        rewrite Hc', (recs_collection o d RS' false Hm'). fold SS'. rewrite E2, obm_ok, omk_ok. eexists; reflexivity.
       + (* maps traced as maps *)
         rewrite Hc in Hcp. destruct (Permutation_map_inv _ _ (Permutation_sym Hcp)) as (kvss' & Hc' & Hpl).
         destruct kvss as [|kv0 r0].
@@ -88,33 +75,21 @@ Section Success.
         rewrite (strip0 o d vs') by (rewrite Hc'; first [apply containers_map; reflexivity|destruct kvss'; [congruence|discriminate]]).
         rewrite Hc', (maps_complete o d kvss' kt' vt' Hm Hd Hne' Hk' Hv'), omk_ok. eexists; reflexivity.
       + (* tuples and tuple structs *)
-        destruct Hc as [Hc|Hc].
-        { rewrite Hc in Hcp. destruct (Permutation_map_inv _ _ (Permutation_sym Hcp)) as (ls' & Hc' & Hpl).
-          destruct ls as [|l0 r0].
-          { destruct (cores_nil_atoms o vs Hc) as (l & Hl). apply (leaf_succ d vs vs' l t Hl Hp H1). }
-          assert (Hne' : ls' <> []) by (intros ->; apply Permutation_sym, Permutation_nil in Hpl; discriminate).
-          rewrite (strip0 o d vs) in H1 by (rewrite Hc; first [apply containers_map; reflexivity|discriminate]). rewrite Hc in H1.
-          destruct (omk_ok_inv _ _ _ H1) as (u & E1 & ->).
-          pose proof (tuple_depth_ok o d l0 r0 false u E1) as Hd.
-          destruct (tuple_projection o d (l0 :: r0) false u ltac:(discriminate) E1) as (F & -> & Hlen & Hcol).
-          assert (Hall : forall i, exists T, trace_seq' o (S d) (col i ls') (Ok (TUnknown false)) = Ok T).
-          { intros i. apply (IH (S d) (col i (l0 :: r0)) (col i ls') _ (Hh i) (col_perm i _ _ Hpl) (Hcol i)). }
-          destruct (tuple_complete o d ls' false Hd Hall) as (u2 & E2).
-          rewrite (strip0 o d vs') by (rewrite Hc'; first [apply containers_map; reflexivity|destruct ls'; [congruence|discriminate]]).
-          rewrite Hc', E2, omk_ok. eexists; reflexivity. }
-        { rewrite Hc in Hcp. destruct (Permutation_map_inv _ _ (Permutation_sym Hcp)) as (ls' & Hc' & Hpl).
-          destruct ls as [|l0 r0].
-          { destruct (cores_nil_atoms o vs Hc) as (l & Hl). apply (leaf_succ d vs vs' l t Hl Hp H1). }
-          assert (Hne' : ls' <> []) by (intros ->; apply Permutation_sym, Permutation_nil in Hpl; discriminate).
-          rewrite (strip0 o d vs) in H1 by (rewrite Hc; first [apply containers_map; reflexivity|discriminate]). rewrite Hc, tuple_structs in H1.
-          destruct (omk_ok_inv _ _ _ H1) as (u & E1 & ->).
-          pose proof (tuple_depth_ok o d l0 r0 false u E1) as Hd.
-          destruct (tuple_projection o d (l0 :: r0) false u ltac:(discriminate) E1) as (F & -> & Hlen & Hcol).
-          assert (Hall : forall i, exists T, trace_seq' o (S d) (col i ls') (Ok (TUnknown false)) = Ok T).
-          { intros i. apply (IH (S d) (col i (l0 :: r0)) (col i ls') _ (Hh i) (col_perm i _ _ Hpl) (Hcol i)). }
-          destruct (tuple_complete o d ls' false Hd Hall) as (u2 & E2).
-          rewrite (strip0 o d vs') by (rewrite Hc'; first [apply containers_map; reflexivity|destruct ls'; [congruence|discriminate]]).
-          rewrite Hc', tuple_structs, E2, omk_ok. eexists; reflexivity. }
+        rewrite Hc in Hcp. destruct (Permutation_map_inv _ _ (Permutation_sym Hcp)) as (TS' & Hc' & Hpl).
+        pose proof (Permutation_map snd Hpl) as Hps.
+        destruct TS as [|x0 r0].
+        { destruct (cores_nil_atoms o vs Hc) as (l & Hl). apply (leaf_succ d vs vs' l t Hl Hp H1). }
+        assert (Hne' : TS' <> []) by (intros ->; apply Permutation_sym, Permutation_nil in Hpl; discriminate).
+        assert (Htc : forall a, is_container (tup a) = true) by (intros [[|] ?]; reflexivity).
+        rewrite (strip0 o d vs) in H1 by (rewrite Hc; first [apply containers_map; exact Htc|discriminate]). rewrite Hc, tups_collection in H1.
+        destruct (omk_ok_inv _ _ _ H1) as (u & E1 & ->).
+        assert (Hd : Nat.leb max_depth d = false) by (cbn [map] in E1; apply (tuple_depth_ok o d _ _ false u E1)).
+        destruct (tuple_projection o d (map snd (x0 :: r0)) false u ltac:(discriminate) E1) as (F & -> & Hlen & Hcol).
+        assert (Hall : forall i, exists T, trace_seq' o (S d) (col i (map snd TS')) (Ok (TUnknown false)) = Ok T).
+        { intros i. apply (IH (S d) (col i (map snd (x0 :: r0))) (col i (map snd TS')) _ (Hh i) (col_perm i _ _ Hps) (Hcol i)). }
+        destruct (tuple_complete o d (map snd TS') false Hd Hall) as (u2 & E2).
+        rewrite (strip0 o d vs') by (rewrite Hc'; first [apply containers_map; exact Htc|destruct TS'; [congruence|discriminate]]).
+        rewrite Hc', tups_collection, E2, omk_ok. eexists; reflexivity.
       + (* enum variants *)
         destruct (cores vs) as [|c0 r0] eqn:Hc.
         { destruct (cores_nil_atoms o vs Hc) as (l & Hl). apply (leaf_succ d vs vs' l t Hl Hp H1). }
